@@ -54,6 +54,21 @@ def run(seed, n_traces, length):
                     for gg in (g, g_ref):
                         mm = gg._edges[ei].information
                         mm[i, j] = np.nextafter(mm[i, j], up)
+        # aliasing the caller may create (Vertex and the edges keep the caller's objects): a non-fixed vertex whose initial
+        # pose IS an edge's measurement object (dead-reckoning initialisation), or is a second pose object on the same
+        # buffer (PoseR2/PoseR3 constructors use np.asarray).  optimize() must still change nothing but vertex poses.
+        if rng.random() < 0.4:
+            cand = [e for e in g._edges if type(e).__name__ == "EdgeOdometry" and not e.vertices[1].fixed and type(e.estimate) is type(e.vertices[1].pose)]
+            if cand:
+                e0 = rng.choice(cand)
+                if type(e0.estimate).__name__ in ("PoseR2", "PoseR3") and rng.random() < 0.5:
+                    buf = np.array(np.asarray(e0.estimate), dtype=np.float64)
+                    e0.estimate = type(e0.estimate)(buf)
+                    e0.vertices[1].pose = type(e0.estimate)(buf)
+                    res["ops"]["alias:shared-buffer"] = res["ops"].get("alias:shared-buffer", 0) + 1
+                else:
+                    e0.vertices[1].pose = e0.estimate
+                    res["ops"]["alias:same-object"] = res["ops"].get("alias:same-object", 0) + 1
         trace = []
         for step in range(length):
             op = rng.choice(OPS)
